@@ -131,7 +131,12 @@ class _MaxRequestBytesMiddleware:
         """Reject oversized inline request bodies with HTTP 413."""
         path = req.path
         for prefix in self._exempt_prefixes:
-            if path == prefix or path.startswith(prefix + "/"):
+            # Exact match only.  The exempt endpoints (``{prefix}/health``) have no
+            # sub-routes of their own, whereas ``{prefix}/health/init`` and
+            # ``{prefix}/health/exchange`` are the stream routes of a method that
+            # happens to be called ``health`` -- matching the whole subtree let
+            # such a method's request bodies bypass the cap.
+            if path == prefix or path == prefix + "/":
                 return
         cl = req.content_length
         if cl is not None and cl > self._max_bytes:
